@@ -17,7 +17,7 @@ mod raw;
 use std::collections::BTreeSet;
 
 use genvcf::{
-    ContigDef, FieldDef, FilterDef, GtAllele, HeaderDesc, HeaderOpts, IdxMode, Model, Num, RecDesc, RecOpts, Tol, Ty, Val, canon_first_phasing, diff_headers, diff_records, features, gen_header, gen_record,
+    ContigDef, FieldDef, FilterDef, GtAllele, HeaderDesc, HeaderOpts, IdxMode, Model, Num, RecDesc, RecOpts, Tol, Ty, Val, canon_first_phasing, diff_headers, diff_records, features, gen_header, gen_record, gen_rich_record, minimal_record,
     header_from_text, io_err_class, rec_desc_of_buf, rec_desc_of_record, series_of_record, to_noodles_header, to_record_buf, to_vcf_line,
 };
 use noodles_bcf as bcf;
@@ -102,6 +102,26 @@ fn blame_shape(indiv: &[u8], r: &RecDesc, h: &HeaderDesc, dict: &Dict) -> String
         Some(fi) => field_shape(r, h, fi),
         None => "layout-as-described".into(),
     }
+}
+
+/// Comparison form of a record: implied first-allele phasing before VCF 4.4; a record without FORMAT
+/// keys (n_fmt = 0) has no sample rows, however many samples the header names.
+fn canon_rec(mut r: RecDesc, ff: (u32, u32)) -> RecDesc {
+    if ff < (4, 4) {
+        canon_first_phasing(&mut r);
+    }
+    if r.format.is_empty() {
+        r.samples.clear();
+    }
+    r
+}
+
+/// An accepted record for the whole-file passes.
+struct Accepted {
+    bytes: Vec<u8>,
+    buf: vcf::variant::RecordBuf,
+    exp: RecDesc,
+    fresh: RecDesc,
 }
 
 struct HeaderCtx {
@@ -229,7 +249,7 @@ fn check_header(hd: &HeaderDesc, out: &mut CaseOut) -> Option<HeaderCtx> {
     Some(HeaderCtx { header, read_header, dict, file_prefix: bytes })
 }
 
-fn check_record(hd: &HeaderDesc, hc: &HeaderCtx, writer: &mut bcf::io::Writer<Vec<u8>>, rd: &RecDesc, out: &mut CaseOut) -> Option<(Vec<u8>, vcf::variant::RecordBuf)> {
+fn check_record(hd: &HeaderDesc, hc: &HeaderCtx, writer: &mut bcf::io::Writer<Vec<u8>>, rd: &RecDesc, out: &mut CaseOut) -> Option<Accepted> {
     let ff = hd.fileformat;
     out.count("records", 1);
     // BCF has no notion of dropped trailing values: every row carries every key
@@ -261,12 +281,7 @@ fn check_record(hd: &HeaderDesc, hc: &HeaderCtx, writer: &mut bcf::io::Writer<Ve
     out.count("records_accepted", 1);
     let bytes = writer.get_ref()[before..].to_vec();
     let ctxs = format!("record (as VCF): {}\nfileformat {}.{}; BCF bytes: {}", lossy(&text), ff.0, ff.1, hex(&bytes[..bytes.len().min(160)]));
-    let canon = |mut r: RecDesc| -> RecDesc {
-        if ff < (4, 4) {
-            canon_first_phasing(&mut r);
-        }
-        r
-    };
+    let canon = |r: RecDesc| -> RecDesc { canon_rec(r, ff) };
     let exp = canon(rd.clone());
     let colkey = |d: &genvcf::FieldDiff| format!("{}|{}", d.column, d.key);
     let mut bad: BTreeSet<String> = BTreeSet::new();
@@ -366,7 +381,10 @@ fn check_record(hd: &HeaderDesc, hc: &HeaderCtx, writer: &mut bcf::io::Writer<Ve
             }
         }
         // VCF rendering of both
-        if clean {
+        if clean && exp.format.is_empty() && !hd.samples.is_empty() {
+            // no FORMAT column in a file with samples is not conforming VCF text: nothing to compare
+            out.count("records_without_format_in_a_file_with_samples", 1);
+        } else if clean {
             let render = |b: &vcf::variant::RecordBuf| {
                 guard::catch(|| {
                     let mut w = vcf::io::Writer::new(Vec::new());
@@ -468,7 +486,10 @@ fn check_record(hd: &HeaderDesc, hc: &HeaderCtx, writer: &mut bcf::io::Writer<Ve
             }
         }
     }
-    if eager_desc.is_some() && !raw_broken { Some((bytes, buf)) } else { None }
+    match eager_desc {
+        Some(fresh) if !raw_broken => Some(Accepted { bytes, buf, exp, fresh }),
+        _ => None,
+    }
 }
 
 /// Inherent accessors of the lazy `bcf::Record` that the trait view does not go through.
@@ -529,7 +550,7 @@ fn lazy_inherent(hc: &HeaderCtx, rec: &bcf::Record, view: &RecDesc, out: &mut Ca
     match rec.samples() {
         Err(e) => bad!("samples", e),
         Ok(samples) => {
-            if samples.len() != view.samples.len() || samples.format_count() != view.format.len() {
+            if (!view.format.is_empty() && samples.len() != view.samples.len()) || samples.format_count() != view.format.len() {
                 bad!("samples.len/format_count", format!("{}x{} vs {}x{}", samples.len(), samples.format_count(), view.samples.len(), view.format.len()));
             }
             for (fi, k) in view.format.iter().enumerate() {
@@ -587,71 +608,121 @@ fn lazy_inherent(hc: &HeaderCtx, rec: &bcf::Record, view: &RecDesc, out: &mut Ca
     }
 }
 
-/// header + accepted records as one BCF file, plain and through BGZF.
-fn file_pass(hc: &HeaderCtx, recs: &[(Vec<u8>, vcf::variant::RecordBuf)], out: &mut CaseOut) {
+/// header + accepted records as ONE BCF file (raw, and written/read through BGZF), read the way users
+/// do: one reader, one reused buffer, through every iteration API. Eagerly read records are compared
+/// with the description (minus what the fresh single-record decode already got wrong), lazily read
+/// ones with the fresh eager decode — so state left over from the previous record shows.
+fn file_pass(hc: &HeaderCtx, recs: &[Accepted], hd: &HeaderDesc, out: &mut CaseOut) {
+    let ff = hd.fileformat;
     let mut file = hc.file_prefix.clone();
     for r in recs {
-        file.extend_from_slice(&r.0);
+        file.extend_from_slice(&r.bytes);
     }
-    let plain = guard::catch(|| -> std::io::Result<usize> {
-        let mut rd = bcf::io::Reader::from(&file[..]);
-        let _ = rd.read_header()?;
-        let mut n = 0;
-        for r in rd.record_bufs(&hc.read_header) {
-            r?;
-            n += 1;
-        }
-        let mut rd = bcf::io::Reader::from(&file[..]);
-        let _ = rd.read_header()?;
-        let m = rd.records().filter(|r| r.is_ok()).count();
-        if m != n {
-            return Err(std::io::Error::other(format!("records() yields {m}, record_bufs() {n}")));
-        }
-        Ok(n)
-    });
-    match plain {
-        Err(p) => out.violation(format!("panic:{}", p.sig), format!("whole-file pass panicked: {}", p.message)),
-        Ok(Err(e)) => out.violation(format!("file-pass:{}", io_err_class(&e)), format!("{e:?}")),
-        Ok(Ok(n)) => {
-            if n != recs.len() {
-                out.violation("file-pass:record-count", format!("{n} records read, {} written", recs.len()));
-            }
-            out.count("file_pass_records", n as u64);
-        }
-    }
-    // the same records through the BGZF writer / reader pair
-    let bg = guard::catch(|| -> std::io::Result<(usize, bool)> {
+    let bgzf_file = guard::catch(|| -> std::io::Result<Vec<u8>> {
         let mut w = bcf::io::Writer::new(Vec::new());
         w.write_header(&hc.header)?;
         for r in recs {
-            w.write_variant_record(&hc.header, &r.1)?;
+            w.write_variant_record(&hc.header, &r.buf)?;
         }
         w.try_finish()?;
-        let data = w.into_inner().into_inner();
-        let mut plain = bcf::io::Reader::from(&file[..]);
-        let _ = plain.read_header()?;
-        let originals: Vec<vcf::variant::RecordBuf> = plain.record_bufs(&hc.read_header).collect::<std::io::Result<_>>()?;
-        let mut rd = bcf::io::Reader::new(&data[..]);
-        let _ = rd.read_header()?;
-        let mut same = true;
-        let mut n = 0;
-        for (i, r) in rd.record_bufs(&hc.read_header).enumerate() {
-            let r = r?;
-            if i >= originals.len() || !diff_records(&rec_desc_of_buf(&originals[i]), &rec_desc_of_buf(&r), &Tol::BITS).is_empty() {
-                same = false;
-            }
-            n += 1;
-        }
-        Ok((n, same))
+        Ok(w.into_inner().into_inner())
     });
-    match bg {
-        Err(p) => out.violation(format!("panic:{}", p.sig), format!("BGZF file pass panicked: {}", p.message)),
-        Ok(Err(e)) => out.violation(format!("bgzf-file-pass:{}", io_err_class(&e)), format!("{e:?}")),
-        Ok(Ok((n, same))) => {
-            if n != recs.len() || !same {
-                out.violation("bgzf-file-pass:records-differ", format!("{n} of {} records, identical: {same}", recs.len()));
+    let bgzf_file = match bgzf_file {
+        Ok(Ok(d)) => Some(d),
+        Ok(Err(e)) => {
+            out.violation(format!("bgzf-file-pass:write:{}", io_err_class(&e)), format!("{e:?}"));
+            None
+        }
+        Err(p) => {
+            out.violation(format!("panic:{}", p.sig), format!("BGZF BCF writer panicked: {}", p.message));
+            None
+        }
+    };
+    let colkey = |d: &genvcf::FieldDiff| format!("{}|{}", d.column, d.key);
+    let known: Vec<BTreeSet<String>> = recs.iter().map(|r| diff_records(&r.exp, &r.fresh, &Tol::BITS).iter().map(colkey).collect()).collect();
+    let show = |i: usize| -> String { lossy(&to_vcf_line(&recs[i].exp, hd)) };
+    let neighbour = |i: usize| -> String { if i == 0 { "(first record)".into() } else { format!("previous record: {}", show(i - 1)) } };
+    for transport in ["raw", "bgzf"] {
+        let data: &[u8] = match (transport, &bgzf_file) {
+            ("raw", _) => &file,
+            (_, Some(d)) => d,
+            _ => continue,
+        };
+        for api in ["read_record_buf", "record_bufs", "read_record", "records"] {
+            let h = &hc.read_header;
+            let res = guard::catch(|| -> std::io::Result<Vec<Result<RecDesc, String>>> {
+                let src: Box<dyn std::io::Read + '_> = if transport == "raw" { Box::new(data) } else { Box::new(noodles_bgzf::io::Reader::new(data)) };
+                let mut rd = bcf::io::Reader::from(src);
+                let _ = rd.read_header()?;
+                let mut got: Vec<Result<RecDesc, String>> = Vec::new();
+                match api {
+                    "read_record_buf" => {
+                        let mut buf = vcf::variant::RecordBuf::default();
+                        while rd.read_record_buf(h, &mut buf)? != 0 {
+                            got.push(Ok(rec_desc_of_buf(&buf)));
+                        }
+                    }
+                    "record_bufs" => {
+                        for r in rd.record_bufs(h) {
+                            got.push(Ok(rec_desc_of_buf(&r?)));
+                        }
+                    }
+                    "read_record" => {
+                        let mut rec = bcf::Record::default();
+                        while rd.read_record(&mut rec)? != 0 {
+                            got.push(rec_desc_of_record(h, &rec).map_err(|e| io_err_class(&e)));
+                        }
+                    }
+                    _ => {
+                        for r in rd.records() {
+                            got.push(rec_desc_of_record(h, &r?).map_err(|e| io_err_class(&e)));
+                        }
+                    }
+                }
+                Ok(got)
+            });
+            let lazy = api == "read_record" || api == "records";
+            match res {
+                Err(p) => out.violation(format!("panic:{}", p.sig), format!("whole-file pass ({transport}, {api}) panicked: {}", p.message)),
+                Ok(Err(e)) => out.violation(format!("file-pass:{api}:{}", io_err_class(&e)), format!("{transport} file of {} records, {api}: {e:?}", recs.len())),
+                Ok(Ok(got)) => {
+                    if got.len() != recs.len() {
+                        out.violation(format!("file-pass:{api}:record-count"), format!("{transport}: {} records read, {} written", got.len(), recs.len()));
+                    }
+                    for (i, g) in got.into_iter().enumerate().take(recs.len()) {
+                        match g {
+                            Err(cls) => out.violation(format!("reused-buffer:{api}:accessor-error:{cls}"), format!("{transport}, record #{i}: {}\n{}", show(i), neighbour(i))),
+                            Ok(g) => {
+                                let g = canon_rec(g, ff);
+                                let reference = if lazy { &recs[i].fresh } else { &recs[i].exp };
+                                for d in diff_records(reference, &g, &Tol::BITS) {
+                                    if lazy || !known[i].contains(&colkey(&d)) {
+                                        out.violation(
+                                            format!("reused-buffer:{api}:{}:{}", d.column, d.class),
+                                            format!("{transport} BCF file read through one reader / one reused buffer, record #{i}, {} {}: {} ({} vs read in sequence)\nrecord: {}\n{}", d.column, d.key, d.detail, if lazy { "fresh eager decode" } else { "description" }, show(i), neighbour(i)),
+                                        );
+                                    }
+                                }
+                            }
+                        }
+                    }
+                    out.count(&format!("file_pass_records[{transport}|{api}]"), recs.len() as u64);
+                }
             }
-            out.count("bgzf_file_pass_records", n as u64);
+        }
+    }
+    out.count("file_pass_records", recs.len() as u64);
+    let rich = |r: &RecDesc| r.ids.len() >= 2 && r.alts.len() >= 2 && r.qual.is_some() && r.info.len() >= 3;
+    let minimal = |r: &RecDesc| r.ids.is_empty() && r.alts.is_empty() && r.qual.is_none() && r.info.len() <= 1;
+    for w in recs.windows(2) {
+        if rich(&w[0].exp) && minimal(&w[1].exp) {
+            out.count("adjacent_rich_then_minimal", 1);
+            if w[1].exp.format.is_empty() && !w[0].exp.format.is_empty() {
+                out.count("adjacent_rich_then_no_format", 1);
+            }
+        }
+        if minimal(&w[0].exp) && rich(&w[1].exp) {
+            out.count("adjacent_minimal_then_rich", 1);
         }
     }
 }
@@ -768,7 +839,32 @@ fn corpus() -> Vec<(HeaderDesc, Vec<RecDesc>)> {
     r.format = vec!["GT".into(), "fS".into()];
     r.samples = vec![vec![gt(&[(Some(0), false), (Some(1), false)]), Some(Val::Str(".".into()))], vec![gt(&[(Some(1), false), (Some(1), false)]), Some(Val::Str("x".into()))]];
     recs.push(r);
+    // rich / minimal neighbours for the reused-buffer file passes (deterministic)
+    {
+        let mut rng = Rng::new(9, 9, 9);
+        let ro = RecOpts::bcf();
+        for kind in [1u64, 3, 2, 3] {
+            let rich = gen_rich_record(&mut rng, &h, &ro);
+            recs.push(rich.clone());
+            recs.push(genvcf::minimal_record(&h, &rich, kind));
+        }
+        recs.push(gen_rich_record(&mut rng, &h, &ro));
+    }
     let mut out = vec![(h.clone(), recs)];
+    {
+        let mut h0 = h.clone();
+        h0.samples.clear();
+        let mut rng = Rng::new(9, 9, 10);
+        let ro = RecOpts::bcf();
+        let mut recs0 = Vec::new();
+        for kind in [3u64, 1] {
+            let rich = gen_rich_record(&mut rng, &h0, &ro);
+            recs0.push(rich.clone());
+            recs0.push(genvcf::minimal_record(&h0, &rich, kind));
+        }
+        recs0.push(gen_rich_record(&mut rng, &h0, &ro));
+        out.push((h0, recs0));
+    }
     // explicit IDX: natural (dictionary unchanged) and permuted
     let mut hn = h.clone();
     let mut rng = Rng::new(1, 2, 3);
@@ -812,7 +908,7 @@ fn run_case(c: &Case) -> CaseOut {
             }
         }
         if !accepted.is_empty() {
-            file_pass(&hc, &accepted, out);
+            file_pass(&hc, &accepted, hd, out);
         }
     };
     match c.kind {
@@ -827,7 +923,20 @@ fn run_case(c: &Case) -> CaseOut {
             let hd = gen_header(&mut rng, &ho);
             let ro = RecOpts { model: Model::Bcf, nan: true, invalid_ints: true, rare: 16 };
             let mut recs: Vec<RecDesc> = Vec::new();
-            for _ in 0..c.n {
+            for i in 0..c.n {
+                // "rich, minimal, rich" runs inside every batch (stale state of reused buffers)
+                match i % 20 {
+                    0 | 2 | 5 => {
+                        recs.push(gen_rich_record(&mut rng, &hd, &ro));
+                        continue;
+                    }
+                    1 | 4 => {
+                        let at = gen_record(&mut rng, &hd, &ro);
+                        recs.push(minimal_record(&hd, &at, [1u64, 3, 2, 3, 0][(i / 20 + i) % 5]));
+                        continue;
+                    }
+                    _ => {}
+                }
                 let mut r = gen_record(&mut rng, &hd, &ro);
                 if rng.chance(1, 40) {
                     if let Some(k) = inject_unrepresentable(&mut rng, &mut r) {
@@ -886,6 +995,15 @@ fn main() {
         rep.floor("records_decoded_independently", get("records_decoded_independently"), recs * 6 / 10);
         rep.floor("lazy_records_read_through_every_accessor", get("lazy_records_read_through_every_accessor"), recs * 6 / 10);
         rep.floor("vcf_renderings_compared", get("vcf_renderings_compared"), recs * 5 / 10);
+        rep.floor("adjacent_rich_then_minimal", get("adjacent_rich_then_minimal"), recs / 60);
+        rep.floor("adjacent_minimal_then_rich", get("adjacent_minimal_then_rich"), recs / 60);
+        rep.floor("adjacent_rich_then_no_format", get("adjacent_rich_then_no_format"), recs / 400);
+        for api in ["read_record_buf", "record_bufs", "read_record", "records"] {
+            for t in ["raw", "bgzf"] {
+                let k = format!("file_pass_records[{t}|{api}]");
+                rep.floor(&k, get(&k), recs * 6 / 10);
+            }
+        }
         rep.floor("headers_idx[explicit]", get("headers_idx[explicit]"), 3);
         rep.floor("ragged_vectors_checked", get("ragged_vectors_checked"), 50);
         for w in ["int8", "int16", "int32"] {
